@@ -7,10 +7,14 @@ from .common import *
 #   (profile, traces, events per trace, config overrides)
 BATCHES = {
     "quick": [
-        ("pay", 10, 90, {}),
+        ("pay", 6, 90, {}),
+        ("life", 8, 90, {}),
+        ("auth", 8, 90, {}),
     ],
     "thorough": [
-        ("pay", 120, 140, {}),
+        ("pay", 60, 140, {}),
+        ("life", 80, 140, {}),
+        ("auth", 80, 140, {}),
     ],
 }
 
@@ -71,6 +75,7 @@ def validate_traces(files, workdir, timeout=3000):
     with open(os.path.join(workdir, "tlc.out"), "w") as fh:
         fh.write(output)
     formulas, violations, consumed = {}, [], None
+    divergences, conformance = [], None
     for t in parse_tuples(output):
         if t[0] == "COUNT":
             formulas[t[1]] = {"exercised": t[2], "failed": t[3]}
@@ -80,12 +85,21 @@ def validate_traces(files, workdir, timeout=3000):
                 if first <= gl < first + n:
                     violations.append({"formula": t[1], "trace": f, "line": gl - first + 1, "seq": t[3], "kind": t[4]})
                     break
+        elif t[0] == "DIVERGED":
+            gl = t[1]
+            for (f, first, n) in index:
+                if first <= gl < first + n:
+                    divergences.append({"trace": f, "line": gl - first + 1, "seq": t[2], "kind": t[3], "what": t[4], "detail": str(t[5:])[:300]})
+                    break
+        elif t[0] == "CONFORMANCE":
+            conformance = {"steps_checked": t[1], "diverged": t[2], "unmodelled": t[3]}
         elif t[0] == "CONSUMED":
             consumed = (t[1], t[2])
     m = TLC_STATS.search(output)
     if rc != 0 or consumed is None or consumed[0] != consumed[1] or not formulas:
         raise MachineryError("TLC trace validation did not complete (rc=%s consumed=%s): %s" % (rc, consumed, output[-3000:]))
     return {"formulas": formulas, "violations": violations, "lines": total, "tlc_wall_s": wall,
+            "divergences": divergences[:50], "conformance": conformance,
             "states": int(m.group(2)) if m else total, "generated": int(m.group(1)) if m else total}
 
 
@@ -147,6 +161,8 @@ def run_property(pid, tier, seed, use_cache=True):
             "observed_steps": val["lines"] - fam["driver"]["traces"],
             "driver": fam["driver"],
             "tlc_wall_s": round(val["tlc_wall_s"], 1),
+            "conformance": val.get("conformance"),
+            "divergences": val.get("divergences", [])[:5],
             "explanation": "states/transitions = states of the real code observed in recorded traces and evaluated by TLC (Trace.tla)",
         }
         return {"coverage": cov, "violations": viol, "level": "model_checking",
